@@ -3,6 +3,7 @@ pub mod c02;
 pub mod c03;
 pub mod c03b;
 pub mod c04;
+pub mod c05;
 pub mod c06;
 pub mod c07;
 pub mod c08;
@@ -45,5 +46,6 @@ pub const REGISTRY: &[Entry] = &[
     Entry { id: "C14", level: "exploration", main: c14::main, replay: c14::replay },
     Entry { id: "C15", level: "exploration", main: c15::main, replay: c15::replay },
     Entry { id: "C08", level: "exploration", main: c08::main, replay: c08::replay },
+    Entry { id: "C05", level: "exploration", main: c05::main, replay: c05::replay },
     Entry { id: "C11", level: "exploration", main: c11::main, replay: c11::replay },
 ];
